@@ -45,6 +45,9 @@ structure St where
   rh : List (Nat × Nat) := []
   pend : List Pend := []
   violated : Option String := none
+  /-- a `ClearKey(k)` overlapped (in real time) another call on `k`, or ran while `k` was held: the property does not cover what
+  follows ("ClearKey is covered only when no goroutine holds or awaits the key"), the rest of the scenario is not judged -/
+  outside : Bool := false
 
 def kindOf : String → Option Kind
   | "lock" => some .lock | "trylock" => some .trylock | "unlock" => some .unlock
@@ -205,6 +208,13 @@ def step (ref : Bool) (st : St) (toks : List Val) (_impl : String) : St × Out :
       if t < 0 || k < 0 then (st, { model := "bad-op" }) else
       let t := t.toNat
       let k := k.toNat
+      -- the ClearKey proviso, decided on real-time overlap: a clear of a key that is held or has a call in progress, or any call on a
+      -- key whose clear is in progress
+      let heldK := st.wh.any (fun p => p.2 == k) || st.rh.any (fun p => p.2 == k)
+      let othersK := st.pend.filter (fun p => p.key == k && p.t != t)
+      let breaks := (kind == .clear && (heldK || !othersK.isEmpty)) || othersK.any (fun p => p.kind == .clear)
+      if st.outside || breaks then
+        ({ st with outside := true }, { model := "ok", spec := some "ok", tags := ["outside.clear-proviso"] }) else
       let op : Op := ⟨kind, k⟩
       let (st, m) := modelStep ref st t [op] (.inv t op) s!"inv_{t}_{kd}_{k}"
       let (st, tags) := specInv st t kind k
@@ -214,6 +224,7 @@ def step (ref : Bool) (st : St) (toks : List Val) (_impl : String) : St × Out :
     match st.started, resOf r with
     | true, some res =>
       if t < 0 then (st, { model := "bad-op" }) else
+      if st.outside then (st, { model := "ok", spec := some "ok", tags := ["outside.clear-proviso"] }) else
       let t := t.toNat
       let (st, m) := modelStep ref st t [] (.res t res) s!"res_{t}_{r}"
       let (st, tags) := specRes st t res
